@@ -70,6 +70,11 @@ fn make_env() -> Env {
         (root.join("secret"), "SECRET secret"),
         (root.join("a.ttl"), "<x:file> <x:is> \"SECRET a.ttl\" ."),
         (root.join("R1x").join("a.ttl"), "<x:file> <x:is> \"SECRET R1x/a.ttl\" ."),
+        // siblings named after the configured directories (reachable by path-level extension tricks)
+        (root.join("R1.ttl"), "<x:file> <x:is> \"SECRET R1.ttl\" ."),
+        (root.join("R1.nt"), "<x:file> <x:is> \"SECRET R1.nt\" ."),
+        (root.join("R2.ttl"), "<x:file> <x:is> \"SECRET R2.ttl\" ."),
+        (r1.join("sub.ttl"), "<x:file> <x:is> \"R1/sub.ttl\" ."),
     ] {
         write(&p, c);
     }
